@@ -49,7 +49,9 @@ class DomainParser:
         :return: a mapping between the type name and the appropriate PDDLType object.
         """
         self.logger.info("Starting to parse the types in the domain!")
-        pddl_types = {}
+        # First collect the declaration groups "child ... - parent" (the order in which they are
+        # written carries no meaning), then create every type and only then link the parents.
+        declaration_groups = []
         same_types_objects = []
         index = 0
         while index < len(types):
@@ -58,29 +60,38 @@ class DomainParser:
                 index += 1
                 continue
 
-            pddl_type = types[index + 1]
-            parent_type = pddl_types.get(
-                pddl_type, PDDLType(name=pddl_type, parent=ObjectType)
-            )
-            pddl_types.update(
-                {
-                    descendant_typ_name: PDDLType(
-                        name=descendant_typ_name, parent=parent_type
-                    )
-                    for descendant_typ_name in same_types_objects
-                }
-            )
+            declaration_groups.append((same_types_objects, types[index + 1]))
             same_types_objects = []
             index += 2
-            continue
 
         if len(same_types_objects) > 0:
-            pddl_types.update(
-                {
-                    type_name: PDDLType(name=type_name, parent=ObjectType)
-                    for type_name in same_types_objects
-                }
+            declaration_groups.append((same_types_objects, ObjectType.name))
+
+        pddl_types = {}
+        for descendant_types, _ in declaration_groups:
+            for descendant_type_name in descendant_types:
+                pddl_types[descendant_type_name] = PDDLType(
+                    name=descendant_type_name, parent=ObjectType
+                )
+
+        for _, parent_type_name in declaration_groups:
+            # a parent that is never declared itself is a direct child of object.
+            if (
+                parent_type_name != ObjectType.name
+                and parent_type_name not in pddl_types
+            ):
+                pddl_types[parent_type_name] = PDDLType(
+                    name=parent_type_name, parent=ObjectType
+                )
+
+        for descendant_types, parent_type_name in declaration_groups:
+            parent_type = (
+                ObjectType
+                if parent_type_name == ObjectType.name
+                else pddl_types[parent_type_name]
             )
+            for descendant_type_name in descendant_types:
+                pddl_types[descendant_type_name].parent = parent_type
 
         pddl_types["object"] = ObjectType
         self.logger.debug(
